@@ -34,6 +34,39 @@ def run(ctx):
     # ... and while it is not promoted, a new master names its pid file '<name>.2' wherever it makes one (boot and HUP): the
     # configured name still names the old master
     c14.r5(MultiAlias(ctx, {"C14.R5": "C17.R7"}))
+    ctx.rule("C17.R8", "K3", "the claim is exclusive among masters that start together: between the check of the existing file and the publication of the own one stands an operation that only one process can win")
+    exclusive_claim(ctx, "C17.R8")
+
+
+def exclusive_claim(ctx, rid):
+    """validate() and os.rename() are two steps; every master that runs the first before any has run the second sees "no file"
+    (or the same stale one), none refuses, each renames its own file over the previous one.  For "exclusively" *some* step
+    between the two must be one that a second process cannot also pass: an exclusive lock taken before the check
+    (fcntl.flock / lockf with LOCK_EX), or a publication that fails when the name exists (os.link onto the name, os.open with
+    O_CREAT|O_EXCL, open(.., 'x')).  Structural necessary condition: this decides that such a step exists on the way from
+    the check to the publication in Pidfile.create (helpers included), not that its use is right."""
+    repo = ctx.repo
+    f = ctx.fn(repo.func("gunicorn.pidfile.Pidfile.create"))
+    fs = [f] + [ctx.fn(repo.func(q)) for c, q in repo.calls_in(f) if q and q.startswith("gunicorn.pidfile.") and repo.has_func(q) and not q.endswith(".validate")]
+    found = []
+    for ff in fs:
+        for n in walk_own(ff.node):
+            if not isinstance(n, ast.Call):
+                continue
+            q = repo.call_target(ff.module, ff, n) or ""
+            txt = norm(n)
+            if q in ("fcntl.flock", "fcntl.lockf") and "LOCK_EX" in txt:
+                found.append((ff, n))
+            elif q == "os.link":
+                found.append((ff, n))
+            elif q == "os.open" and "O_EXCL" in txt:
+                found.append((ff, n))
+            elif q in ("open", "io.open", "builtins.open") and any(isinstance(a, ast.Constant) and isinstance(a.value, str) and "x" in a.value for a in list(n.args[1:2]) + [k.value for k in n.keywords if k.arg == "mode"]):
+                found.append((ff, n))
+    ctx.check(rid, bool(found), key(f, "check-then-write"), site(f),
+              "Pidfile.create reads the existing file (validate) and later renames its own file over the name, with no step in between that only one process can pass (no exclusive lock, no "
+              "link / O_EXCL publication): masters started at the same moment all pass the check, all 'own' the pid file, and the file names only the last of them", "an exclusive step between check and publication")
+    ctx.count("exclusive steps in Pidfile.create", len(found))
 
 
 def durable_writes(repo, f):
@@ -97,11 +130,13 @@ def r1(ctx):
             return "MYPID"
         if isinstance(e, ast.Call) and norm(e.func) == "self.validate":
             return "VALIDATE"
+        if isinstance(e, ast.Call) and repo.call_target(f.module, f, e) in ("os.path.isdir", "os.path.exists"):
+            return "DIR_EXISTS"      # (the table is about the owner check; the directory is there, wherever it is tested)
         return None
     start = val[0]
     for label, old in (("no live owner", None), ("own pid", 42), ("foreign live pid", 500)):
         ex = Explorer(f, atom_of=atom_of, tracked=[OLD])
-        outs = ex.run(g.entry, {"VALIDATE": old, "MYPID": 42, "self.fname": "/run/g.pid"}, watch=dict([(n.id, "write") for n in wr] + [(n.id, "publish") for n in ren]))
+        outs = ex.run(g.entry, {"VALIDATE": old, "MYPID": 42, "self.fname": "/run/g.pid", "DIR_EXISTS": True}, watch=dict([(n.id, "write") for n in wr] + [(n.id, "publish") for n in ren]))
         got = set()
         for o in outs:
             if o.kind == "raise":
